@@ -22,6 +22,11 @@ func ValidateQuery(query string) (string, error) {
 		return "", errors.NewQueryTooLongError(len(query), constants.MaxQueryLength)
 	}
 
+	// Bytes that are not valid UTF-8 become '?' (one byte each run): the replacement
+	// character would triple their size, so an accepted query could come back longer
+	// than the limit and be rejected when validated again.
+	query = strings.ToValidUTF8(query, "?")
+
 	// Basic sanitization - remove control characters but keep printable chars
 	cleaned := strings.Map(func(r rune) rune {
 		if unicode.IsControl(r) && r != '\n' && r != '\t' {
